@@ -238,14 +238,21 @@ pub fn scan<V: Vary>(
 
 #[inline]
 fn round_up_to_half(x: f32) -> f32 {
+    // Note: `floor(x + 0.5) + 0.5` is not correct here, because `x + 0.5` may
+    // round up to the next integer when `x` is just below a pixel center.
     #[cfg(feature = "fp")]
-    {
+    let floor = {
         use crate::math::float::f32;
-        f32::floor(x + 0.5) + 0.5
-    }
+        f32::floor(x)
+    };
     #[cfg(not(feature = "fp"))]
-    {
-        (x + 0.5) as i32 as f32 + 0.5
+    let floor = x as i32 as f32;
+
+    // `x - floor` is exact
+    if x - floor >= 0.5 {
+        floor + 1.5
+    } else {
+        floor + 0.5
     }
 }
 
